@@ -148,12 +148,12 @@ def decVec : List Nat → Option (Toy.Vec × List Nat)
   | n :: r => decRats n r
   | [] => none
 
-abbrev ToySnap := Snap Toy.Vec (Option Toy.Vec) Unit
+abbrev ToySnap := Snap Toy.Vec (Option Toy.Vec) Nat
 
 def encSnap (c : ToySnap) : Bytes :=
   let body := encVec c.theta ++ (match c.ostate with
     | none => [0]
-    | some v => 1 :: encVec v) ++ [c.epoch]
+    | some v => 1 :: encVec v) ++ [c.epoch, c.scaler]
   (body.length + 1) :: body
 
 def decSnap (b : Bytes) : Option ToySnap :=
@@ -164,16 +164,16 @@ def decSnap (b : Bytes) : Option ToySnap :=
     | none => none
     | some (theta, r) =>
       match r with
-      | 0 :: [e] => some ⟨theta, none, e, ()⟩
+      | 0 :: [e, sc] => some ⟨theta, none, e, sc⟩
       | 1 :: r' =>
         match decVec r' with
-        | some (v, [e]) => some ⟨theta, some v, e, ()⟩
+        | some (v, [e, sc]) => some ⟨theta, some v, e, sc⟩
         | _ => none
       | _ => none
   | [] => none
 
 def mkRun (c : ToyCfg) (ckSteps : Nat) (pinnedKill : Bool) (t : List Stmt) :
-    Run Toy.Vec (Option Toy.Vec) Toy.Vec Toy.Batch Rat Unit :=
+    Run Toy.Vec (Option Toy.Vec) Toy.Vec Toy.Batch Rat Nat :=
   { saveTbl := t, ops := Toy.ops c.d c.mu, lrAt := c.lrAt, cfg := { k := c.k }, batch := c.batch, init := c.init,
     total := c.total, ckSteps := ckSteps, encode := fun s => [encSnap s], decode := decSnap,
     killLabel := if pinnedKill then killLabelPinned else killLabel }
@@ -199,7 +199,7 @@ def crashPoint (ops : List FsOp) (p : Nat) : Nat × Option Nat :=
   | 4 => (r2, none)
   | _ => (r2 + 1, none)
 
-def parseStops (r : Run Toy.Vec (Option Toy.Vec) Toy.Vec Toy.Batch Rat Unit) : List Int → Option (List Stop)
+def parseStops (r : Run Toy.Vec (Option Toy.Vec) Toy.Vec Toy.Batch Rat Nat) : List Int → Option (List Stop)
   | [] => some []
   | kind :: j :: p :: rest =>
     (parseStops r rest).map fun tl =>
@@ -212,7 +212,7 @@ def parseStops (r : Run Toy.Vec (Option Toy.Vec) Toy.Vec Toy.Batch Rat Unit) : L
         | _ => Stop.finish) :: tl
   | _ => none
 
-def latestLabel (r : Run Toy.Vec (Option Toy.Vec) Toy.Vec Toy.Batch Rat Unit) (d : Dir) : Int :=
+def latestLabel (r : Run Toy.Vec (Option Toy.Vec) Toy.Vec Toy.Batch Rat Nat) (d : Dir) : Int :=
   match loadLatest r.decode d with
   | .ok it _ => it
   | _ => -1
@@ -228,7 +228,7 @@ def opTrain (c : ToyCfg) (ckSteps : Nat) (pinnedKill : Bool) (t : List Stmt) (st
       let mut d : Dir := Dir.empty
       let mut out : List (List Int) := []
       for st in sts ++ [Stop.finish] do
-        let (s0, start) : St Toy.Vec (Option Toy.Vec) Toy.Vec Unit × Nat := match loadLatest r.decode d with
+        let (s0, start) : St Toy.Vec (Option Toy.Vec) Toy.Vec Nat × Nat := match loadLatest r.decode d with
           | .ok label c => (restore r.ops.zero c, (resumeStart label).toNat)
           | _ => (r.init, 0)
         match r.process st d with
@@ -236,7 +236,7 @@ def opTrain (c : ToyCfg) (ckSteps : Nat) (pinnedKill : Bool) (t : List Stmt) (st
         | some (s, d') =>
           let done := s.epoch - s0.epoch
           let lrs := (List.range done).flatMap fun j => ratG (r.lrAt (s0.epoch + 1 + j))
-          out := out ++ [[(start : Int), (done : Int), latestLabel r d', (s.epoch : Int)], vecG s.theta, lrs]
+          out := out ++ [[(start : Int), (done : Int), latestLabel r d', (s.epoch : Int), (s.scaler : Int)], vecG s.theta, lrs]
           d := d'
       return okG out
 
